@@ -786,7 +786,11 @@ class Engine:
         if name in ("wraps", "functools.wraps"):
             return f
         if name is not None and name.endswith(".setter"):
-            raise Unsupported("property setter")
+            prop = env.lookup(name.split(".")[0])
+            prop.setter = f
+            f.kind = "setter"
+            f.prop = prop
+            return prop
         if name in ("dataclass", "dataclasses.dataclass"):
             f.is_dataclass = True
             return f
@@ -973,6 +977,13 @@ class Engine:
 
     def setattr(self, o, name, v):
         if isinstance(o, Rec):
+            f, _ = o.cls.lookup(name)
+            if isinstance(f, FuncV) and f.kind == "property":
+                st = getattr(f, "setter", None)
+                if st is None:
+                    raise PyRaise(AttributeError, (f"can't set attribute {name}",))
+                self.call_function(st, [o, v], {})
+                return
             o.attrs[name] = v
             self.ghost("setattr", o.id, name)
             return
@@ -983,6 +994,10 @@ class Engine:
             self.path.__dict__.setdefault("opaque_attrs", {})[(o.get_id(), name)] = v
             return
         if isinstance(o, ModuleV):
+            o.load()
+            o.ns[name] = v
+            return
+        if isinstance(o, ClassV):
             o.ns[name] = v
             return
         if isinstance(o, _Namespace):
@@ -1260,8 +1275,8 @@ class Engine:
                         if k in kwargs:
                             raise PyRaise(TypeError, ("multiple values for keyword",))
                         kwargs[k] = v
-                elif isinstance(d, _KwBag):
-                    kwargs.update(d.as_kwargs())
+                elif is_obj(d):
+                    kwargs["**"] = d
                 else:
                     raise Unsupported(f"** of {type(d).__name__}", node)
             else:
@@ -1305,6 +1320,9 @@ class Engine:
                 else:
                     k = self.eval(node.key, cenv)
                     if is_sym(k):
+                        if self.policy.get("generic_iteration"):
+                            f = ufunc("dictcomp", Obj, Obj, Obj)
+                            raise _OpaqueResult(f(self.box(k), self.box(self.eval(node.value, cenv))))
                         raise Unsupported("symbolic key in dict comprehension", node)
                     out[k] = self.eval(node.value, cenv)
                 return
@@ -1319,14 +1337,17 @@ class Engine:
                         break
                 if ok:
                     rec(gi + 1)
-        rec(0)
+        try:
+            rec(0)
+        except _OpaqueResult as e:
+            return e.value
         return out
 
     def symbolic_comprehension(self, node, gen, src, cenv):
         """[elt for target in src if cond] over a source of symbolic length.
         Supported sources: SeqV, opaque, enumerate/zip of those (as _SymIter)."""
         it = self.as_symiter(src)
-        if it is None:
+        if it is None or self.policy.get("generic_iteration"):
             return NotImplemented
         i = z3.Int(self.path.fresh("ci"))
         x = it.at(self, i)
@@ -1386,6 +1407,8 @@ class Engine:
             return SeqV(arr, a.n + b.n)
         if (isinstance(a, str) or is_zstr(a)) and (isinstance(b, str) or is_zstr(b)) and isinstance(op, ast.Add):
             return z3.Concat(_zs(a), _zs(b))
+        if isinstance(op, ast.Add) and ((isinstance(a, str) or is_zstr(a)) and is_obj(b) or (isinstance(b, str) or is_zstr(b)) and is_obj(a)):
+            return z3.Concat(_zs(a) if not is_obj(a) else str_of(a), _zs(b) if not is_obj(b) else str_of(b))
         if is_zbool(a) and is_zbool(b) and isinstance(op, (ast.BitAnd, ast.BitOr)):
             return z3.And(a, b) if isinstance(op, ast.BitAnd) else z3.Or(a, b)
         if (isinstance(a, str) and isinstance(op, ast.Mod)):
@@ -1607,6 +1630,9 @@ class Engine:
     def special_module_attr(self, mod, name):
         """pyhf/__init__.py defines tensorlib / optimizer / default_backend through a module
         level __getattr__; get_backend lives in tensor/manager.py (DESIGN 2.3.3)"""
+        h = self.policy.get(("module_attr", mod.modname, name))
+        if h is not None:
+            return h(self) if callable(h) and not isinstance(h, (FuncV, NativeFn)) else h
         if mod.modname in ("pyhf", "pyhf.tensor.manager") and name == "get_backend" and self.policy.get("model_backend", True):
             return NativeFn("get_backend", lambda eng: (eng.get_tensorlib(), eng.get_optimizer()), wants_engine=True)
         if mod.modname == "pyhf" and name in ("tensorlib", "default_backend"):
@@ -1705,6 +1731,12 @@ class Engine:
                 except TypeError:
                     raise PyRaise(TypeError, ("unhashable",))
             return self._concrete(lambda: c[k])
+        if isinstance(c, Ext):
+            if c.path == "sys.modules" and isinstance(k, str):
+                m = self.find_module(k)
+                if m is not None:
+                    return m
+            return Ext(c.path + "[]")       # typing subscripts and the like
         if isinstance(c, ClassV) or c in (list, dict, tuple):
             return c       # typing subscripts
         raise Unsupported(f"getitem on {type(c).__name__}")
@@ -1735,6 +1767,13 @@ class Engine:
             if known is not None:
                 it = self.as_symiter(v)
                 return [it.at(self, z3.IntVal(k)) for k in range(known)]
+            if self.policy.get("generic_iteration"):
+                # dataflow abstraction (DESIGN 2.2): one generic element stands for all of them
+                it = self.as_symiter(v)
+                i = z3.Int(self.path.fresh("gen_i"))
+                self.assume(z3.And(i >= 0, i < it.n))
+                self.path.__dict__.setdefault("generic_iterations", []).append(str(node.lineno) if node is not None and hasattr(node, "lineno") else "?")
+                return [it.at(self, i)]
             raise Unsupported("iteration over a sequence of symbolic length (needs invariant / comprehension form)", node)
         raise Unsupported(f"iteration over {type(v).__name__}", node)
 
@@ -1782,6 +1821,10 @@ class Engine:
 
     def instantiate(self, cls, args, kwargs):
         h = self.policy.get(f"{cls.module.relpath}::{cls.name}")
+        if h == "opaque":
+            rec = self.log_call(f"{cls.module.relpath}::{cls.name}", args, kwargs)
+            rec.result = self._opaque_apply(z3.Const(f"ref:{cls.module.relpath}::{cls.name}", Obj), args, kwargs)
+            return rec.result
         if callable(h):
             rec = self.log_call(f"{cls.module.relpath}::{cls.name}", args, kwargs)
             rec.result = h(self, rec)
@@ -1927,6 +1970,11 @@ class Engine:
         sorts = [Obj] * (1 + len(args) + len(kws)) + [Obj]
         f = ufunc(name, *sorts)
         return f(fn, *[self.box(a) for a in args], *[self.box(kwargs[k]) for k in kws])
+
+
+class _OpaqueResult(Exception):
+    def __init__(self, value):
+        self.value = value
 
 
 class PathCut(Exception):
